@@ -141,6 +141,9 @@ def gen_dcase(rng: Rng, kind: str | None = None) -> dict:
     names = rng.shuffle(HOLDER_NAMES)
     # where defaults live: the defining module, importing modules, or both
     where = rng.choice(["both", "both", "both", "definer", "importers"])
+    names_carry_module = kind in ("dotted", "openapi")
+    if names_carry_module and rng.chance(2, 3):
+        where = "importers"  # known finding C09-F1 stops the import of every defining module that has a default: look past it
     for ename, e in enums.items():
         host_mods: list[list] = []
         if where in ("both", "definer"):
@@ -161,6 +164,8 @@ def gen_dcase(rng: Rng, kind: str | None = None) -> dict:
                 ee = enums[en]
                 shape = "list" if rng.chance(1, 3) else "scalar"
                 wrap = rng.choice(["ref", "ref", "allOf", "inline"]) if shape == "scalar" else rng.choice(["ref", "ref", "inline"])
+                if names_carry_module and wrap == "inline" and where == "importers":
+                    wrap = "ref"
 
                 def pick() -> Any:
                     p = rng.below(12)
@@ -174,7 +179,10 @@ def gen_dcase(rng: Rng, kind: str | None = None) -> dict:
                 fields.append({"name": f"f{len(fields)}", "enum": en, "shape": shape, "wrap": wrap, "default": d})
             holders.append({"module": m, "name": names.pop(), "fields": fields})
     order = rng.shuffle([*enums, *[h["name"] for h in holders]])
-    return {"dkind": kind, "model": rng.choice(MODELS), "opts": {"set_default_enum_member": True, **rng.choice(OPTS)},
+    opts = rng.choice(OPTS)
+    if names_carry_module and opts.get("use_exact_imports") and rng.chance(2, 3):
+        opts = {}
+    return {"dkind": kind, "model": rng.choice(MODELS), "opts": {"set_default_enum_member": True, **opts},
             "enums": {k: {kk: vv for kk, vv in v.items() if kk != "hot"} for k, v in enums.items()}, "holders": holders, "order": order}
 
 
